@@ -3,10 +3,16 @@ drivers and which trace specifications (pipelines B/C) decide each property, and
 classes a run must have exercised to count as non-vacuous."""
 
 PROPS = {}
+NOT_APPLICABLE = {}
 
 PROPS["C01"] = {
     "title": "field-element operations are exact arithmetic modulo p",
     "level": "exploration",
+    "level_text": "Every field operation and raw fiat entry point of the real code is executed on steered corner operands "
+                  "(sum/difference/Montgomery windows, limb patterns, all byte-string classes, every alias pattern) and every "
+                  "logged result is decided by TLC against Field.tla at full size; the oracle itself and the A-level "
+                  "algorithms are model-checked exhaustively on miniature primes. Sampling with an exact model oracle, not a proof.",
+    "level_note": "trusted: TLC, BigInt overrides (java.math.BigInteger, self-tested), the harness' logging; generators untrusted",
     "exhaustive": [
         {"spec": "MC_Field", "params": "mini163"},
         {"spec": "MC_Field", "params": "mini211", "tiers": ("thorough",)},
